@@ -4,6 +4,7 @@ pub mod c03;
 pub mod c04;
 pub mod c05;
 pub mod c06;
+pub mod c07;
 pub mod c08;
 pub mod c09;
 pub mod c10;
@@ -60,6 +61,7 @@ pub fn run(id: &str, tier: Tier, seed: u64) -> Option<Report> {
         "C04" => c04::run(tier, seed),
         "C05" => c05::run(tier, seed),
         "C06" => c06::run(tier, seed),
+        "C07" => c07::run(tier, seed),
         "C08" => c08::run(tier, seed),
         "C09" => c09::run(tier, seed),
         "C10" => c10::run(tier, seed),
@@ -82,6 +84,7 @@ pub fn replay(id: &str, phase: &str, tape: &[u16], seed: u64) -> Option<Report> 
         "C04" => c04::replay(phase, tape, seed),
         "C05" => c05::replay(phase, tape, seed),
         "C06" => c06::replay(phase, tape, seed),
+        "C07" => c07::replay(phase, tape, seed),
         "C08" => c08::replay(phase, tape, seed),
         "C09" => c09::replay(phase, tape, seed),
         "C10" => c10::replay(phase, tape, seed),
